@@ -135,6 +135,50 @@ M2('c01-params-stack-shared-with-children', 'C01', 'R3', [
     {'file': F, 'old': "                params_stack.copy(),\n                level + 1,", 'new': "                params_stack,\n                level + 1,"},
     {'file': F, 'old': "            params_stack = original_params_stack.copy()\n", 'new': ""}])
 
+# R3 (d): a delayed construct must not read a generated variable that other nodes rebind
+PREFETCHED = """            cx_pattern_match = _CxVariableFromPatternMatchPrefetched(
+                len(params_stack) + 1
+            )
+            params_stack.append(
+                _CxSetParamsFromDict(cx_pattern_match.dict_variable_name)
+            )
+            parent.append_child(cx_pattern_match)
+"""
+# seeded change s2-c01-2: the per-node alias `dict_groups_N = groups` dropped as "redundant"
+M('c01-delayed-update-reads-shared-groups', 'C01', 'R3', F, PREFETCHED,
+  "            params_stack.append(_CxSetParamsFromDict('groups'))\n")
+# the alias itself is delayed: `dict_groups_N = groups` is then evaluated at return time
+M('c01-groups-alias-taken-at-return', 'C01', 'R3', F, PREFETCHED,
+  """            cx_pattern_match = _CxVariableFromPatternMatchPrefetched(
+                len(params_stack) + 1
+            )
+            params_stack.append(cx_pattern_match)
+            params_stack.append(
+                _CxSetParamsFromDict(cx_pattern_match.dict_variable_name)
+            )
+""")
+# the match dict of a multi-field segment is fetched at return time from the shared `match`
+M('c01-delayed-update-reads-shared-match', 'C01', 'R3', F,
+  """                        cx_pattern = _CxVariableFromPatternMatch(len(params_stack) + 1)
+                        params_stack.append(
+                            _CxSetParamsFromDict(cx_pattern.dict_variable_name)
+                        )
+                        parent.append_child(cx_pattern)
+""",
+  """                        params_stack.append(
+                            _CxSetParamsFromDict('match.groupdict()')
+                        )
+""")
+# the "unique" variable loses its per-node suffix: nested multi-field segments overwrite each other's dict
+M('c01-dict-match-name-not-unique', 'C01', 'R3', F,
+  "        self.dict_variable_name = 'dict_match_{0}'.format(unique_idx)",
+  "        self.dict_variable_name = 'dict_match'")
+M('c01-field-value-index-constant', 'C01', 'R3', F,
+  """            cx_converter = _CxIfConverterField(len(params_stack) + 1, converter_idx)
+            params_stack.append(""",
+  """            cx_converter = _CxIfConverterField(0, converter_idx)
+            params_stack.append(""")
+
 # ----------------------------------------------------------------------- R5
 M('c01-find-swaps-patterns-converters', 'C01', 'R5', F,
   """        node: Optional[CompiledRouterNode] = self._find(
